@@ -1,9 +1,115 @@
+import SwayVerif.Model.Storage
 import SwayVerif.Driver.Util
-/-! Driver for C28 (stub — replace `answer`; keep `run`). -/
+/-!
+Driver for C28. Case (see harness/src/bin/sv_c28.rs):
+`hist fields=<kind:fid,..> h=<pre:dig,..> ops=<op,..> ;; st=<state> obs=<tok,..>`.
+agree = the slot machine (`runSlot`, SHA-256 supplied as the finite table `h`) predicts the
+observations; prop = the mathematical models (`histProp`) do.
+-/
 namespace SwayVerif.Driver.C28
-open SwayVerif.Driver
+open SwayVerif.Driver SwayVerif.Storage
 
-def answer (_line : String) : String := "unimplemented agree=0 prop=0"
+def kv (ts : List String) (k : String) : Option String :=
+  ts.findSome? fun t => if t.startsWith (k ++ "=") then some (t.drop (k.length + 1)).toString else none
+
+def bytesOf (s : String) : Option (List Nat) := (hexBytes? s).map (·.map UInt8.toNat)
+
+def parseList {α} (sep : String) (f : String → Option α) (s : String) : Option (List α) :=
+  if s = "-" || s = "" then some [] else
+  (s.splitOn sep).foldr (fun t acc => match acc, f t with
+    | some l, some x => some (x :: l)
+    | _, _ => none) (some [])
+
+def parseField (t : String) : Option FieldInfo :=
+  match t.splitOn ":" with
+  | [k, h] => do
+    let fid ← parseHex? h
+    let kind ← if k = "B" || k = "S" then some FKind.slice
+      else if k.startsWith "V" then (k.drop 1).toString.toNat?.map FKind.vec
+      else if k.startsWith "M" then (k.drop 1).toString.toNat?.map FKind.map
+      else none
+    pure ⟨kind, fid⟩
+  | _ => none
+
+/-- the contract's `mk_bytes(len, seed, printable)` -/
+def mkBytes (len seed : Nat) (printable : Bool) : List Nat :=
+  (List.range len).map fun i => if printable then 32 + (seed + i * 7) % 95 else (seed + i * 7) % 256
+
+def parseOp (fs : List (String)) (t : String) : Option Op :=
+  match t.splitOn "." with
+  | ["vpush", f, h] => do pure (.vpush (← f.toNat?) (← bytesOf h))
+  | ["vpop", f] => do pure (.vpop (← f.toNat?))
+  | ["vget", f, i] => do pure (.vget (← f.toNat?) (← i.toNat?))
+  | ["vset", f, i, h] => do pure (.vset (← f.toNat?) (← i.toNat?) (← bytesOf h))
+  | ["vlen", f] => do pure (.vlen (← f.toNat?))
+  | ["vremove", f, i] => do pure (.vremove (← f.toNat?) (← i.toNat?))
+  | ["vinsert", f, i, h] => do pure (.vinsert (← f.toNat?) (← i.toNat?) (← bytesOf h))
+  | ["vswap", f, i, j] => do pure (.vswap (← f.toNat?) (← i.toNat?) (← j.toNat?))
+  | ["vswaprm", f, i] => do pure (.vswaprm (← f.toNat?) (← i.toNat?))
+  | ["vclear", f] => do pure (.vclear (← f.toNat?))
+  | ["minsert", f, k, h] => do pure (.minsert (← f.toNat?) (← k.toNat?) (← bytesOf h))
+  | ["mget", f, k] => do pure (.mget (← f.toNat?) (← k.toNat?))
+  | ["mremove", f, k] => do pure (.mremove (← f.toNat?) (← k.toNat?))
+  | ["bwrite", f, l, s] => do
+      let f ← f.toNat?
+      let printable := fs[f]? == some "S"
+      pure (.bwrite f (mkBytes (← l.toNat?) (← s.toNat?) printable))
+  | ["bread", f] => do pure (.bread (← f.toNat?))
+  | ["blen", f] => do pure (.blen (← f.toNat?))
+  | ["bclear", f] => do pure (.bclear (← f.toNat?))
+  | ["raw", h] => do pure (.raw (← parseHex? h))
+  | _ => none
+
+def parseObs (t : String) : Option Obs :=
+  if t = "u" then some .unit
+  else if t = "n" then some .none
+  else if t = "R" then some .revert
+  else if t = "b0" then some (.bool false)
+  else if t = "b1" then some (.bool true)
+  else if t.startsWith "d" then (t.drop 1).toString.toNat?.map .num
+  else if t.startsWith "s" then (bytesOf (t.drop 1).toString).map .some
+  else none
+
+def opName : Op → String
+  | .vpush .. => "vpush" | .vpop .. => "vpop" | .vget .. => "vget" | .vset .. => "vset" | .vlen .. => "vlen"
+  | .vremove .. => "vremove" | .vinsert .. => "vinsert" | .vswap .. => "vswap" | .vswaprm .. => "vswaprm"
+  | .vclear .. => "vclear" | .minsert .. => "minsert" | .mget .. => "mget" | .mremove .. => "mremove"
+  | .bwrite .. => "bwrite" | .bread .. => "bread" | .blen .. => "blen" | .bclear .. => "bclear" | .raw .. => "raw"
+
+def showObs : Obs → String
+  | .unit => "u" | .none => "n" | .some b => "s" ++ showHexBytes (b.map UInt8.ofNat) | .num n => s!"d{n}"
+  | .bool b => if b then "b1" else "b0" | .revert => "R"
+
+def answer (line : String) : String :=
+  let (c, i) := splitCase line
+  let r : Option String := do
+    if c.head? != some "hist" then none
+    let fieldToks := ((← kv c "fields").splitOn ",")
+    let fs ← parseList "," parseField (← kv c "fields")
+    let kinds := fieldToks.map fun t => (t.splitOn ":").headD ""
+    let table ← parseList "," (fun t => match t.splitOn ":" with
+      | [p, d] => do pure ((← bytesOf p), (← parseHex? d))
+      | _ => none) (← kv c "h")
+    let ops ← parseList "," (parseOp kinds) (← kv c "ops")
+    let obs ← parseList "," parseObs (← kv i "obs")
+    -- SHA-256 as supplied; a pre-image outside the table hashes to a sentinel that is reported
+    let miss : Nat := two256 + 1
+    let H : List Nat → Nat := fun p => match table.find? (·.1 == p) with
+      | some e => e.2
+      | none => miss
+    let model := runSlot H fs Store.empty ops
+    let agree := model == obs
+    let prop := histProp (absInit fs) ops obs
+    let reverted := obs.contains .revert
+    -- distinctness of the keys in play (the hypotheses of the theorems, checked concretely)
+    let keys := fs.map (·.fid) ++ table.map (·.2)
+    let spaced := nodupKeys keys && keys.all (fun k => keys.all fun k' => k = k' || k + 64 ≤ k' || k' + 64 ≤ k) && keys.all (· + 64 < two256)
+    let kindsHit := (ops.map opName).eraseDups
+    pure s!"{",".intercalate (model.map showObs)} agree={b01 agree} prop={b01 prop} nops={ops.length} reverted={b01 reverted} spaced={b01 spaced} fieldsTouched={(ops.filterMap fun o => match o with
+      | .vpush f _ | .vpop f | .vget f _ | .vset f _ _ | .vlen f | .vremove f _ | .vinsert f _ _ | .vswap f _ _ | .vswaprm f _ | .vclear f
+      | .minsert f _ _ | .mget f _ | .mremove f _ | .bwrite f _ | .bread f | .blen f | .bclear f => some f
+      | .raw _ => none).eraseDups.length} opkinds={kindsHit.length}"
+  r.getD "bad-case agree=0 prop=0"
 
 def run : IO Unit := do
   lineLoop (← IO.getStdin) (← IO.getStdout) answer
